@@ -315,13 +315,9 @@ theorem dijkstraLoop_inv {sel : Selector} (hsel : SelSpec sel) {g : Graph} (hv :
       show q'.length ≤ f
       omega
 
-/-- (3) Dijkstra over any selector that returns a minimum: the output vector is the exact
-    single-source distance vector -/
-theorem dijkstra_exact {sel : Selector} (hsel : SelSpec sel) {g : Graph} (hv : Valid g) {s : Nat} (hs : s < g.n)
-    {j : Nat} (hj : j < g.n) : IsDist g s j (Vec.at (dijkstra sel g s) j) := by
-  obtain ⟨hinv, hq⟩ := dijkstraLoop_inv hsel hv g.n _ (dinv_init hs) (by simp [dijkstraInit])
-  unfold dijkstra
-  generalize dijkstraLoop sel g.edges g.n (dijkstraInit g.n s) = st at hinv hq
+/-- when the queue is empty the output vector is the exact single-source distance vector -/
+theorem dinv_final {g : Graph} (hv : Valid g) {s : Nat} {st : DState} (hinv : DInv g s st) (hq : st.q = [])
+    {j : Nat} (hj : j < g.n) : IsDist g s j (Vec.at st.out j) := by
   have hnot : ∀ t, t ∉ st.q := by intro t; rw [hq]; exact List.not_mem_nil
   rw [hinv.outeq j hj (hnot j)]
   -- lower bound on every walk
@@ -345,5 +341,12 @@ theorem dijkstra_exact {sel : Selector} (hsel : SelSpec sel) {g : Graph} (hv : V
     rw [hd] at hb
     injection hb with hb
     rw [hb]; exact hbc
+
+/-- (3) Dijkstra over any selector that returns a minimum: the output vector is the exact
+    single-source distance vector -/
+theorem dijkstra_exact {sel : Selector} (hsel : SelSpec sel) {g : Graph} (hv : Valid g) {s : Nat} (hs : s < g.n)
+    {j : Nat} (hj : j < g.n) : IsDist g s j (Vec.at (dijkstra sel g s) j) := by
+  obtain ⟨hinv, hq⟩ := dijkstraLoop_inv hsel hv g.n _ (dinv_init hs) (by simp [dijkstraInit])
+  exact dinv_final hv hinv hq hj
 
 end AdaptaVerif.Lemmas.Apsp
